@@ -201,10 +201,12 @@ impl<'a> IRCodeGen<'a> {
                 let (aops, a) = self.expression(&a, ctx);
                 let (bops, b) = self.expression(&b, ctx);
                 let c = self.var();
+                let f = self.var();
                 (
                     [
                         aops,
-                        vec![IR::Bool(c, false), IR::If(a)],
+                        // The result is assigned in a branch, so it has to be a real local.
+                        vec![IR::Define(c), IR::Bool(f, false), IR::Assign(c, f), IR::If(a)],
                         bops,
                         vec![IR::Assign(c, b), IR::End],
                     ]
@@ -217,10 +219,18 @@ impl<'a> IRCodeGen<'a> {
                 let (bops, b) = self.expression(&b, ctx);
                 let neg_a = self.var();
                 let c = self.var();
+                let t = self.var();
                 (
                     [
                         aops,
-                        vec![IR::Bool(c, true), IR::Not(neg_a, a), IR::If(neg_a)],
+                        // The result is assigned in a branch, so it has to be a real local.
+                        vec![
+                            IR::Define(c),
+                            IR::Bool(t, true),
+                            IR::Assign(c, t),
+                            IR::Not(neg_a, a),
+                            IR::If(neg_a),
+                        ],
                         bops,
                         vec![IR::Assign(c, b), IR::End],
                     ]
@@ -279,7 +289,13 @@ impl<'a> IRCodeGen<'a> {
                     .flatten()
                     .collect::<Vec<_>>();
                 (
-                    [code, branches.iter().map(|_| IR::End).collect()].concat(),
+                    [
+                        // Without the definition `out` would be a Lua global shared by all activations.
+                        vec![IR::Define(out)],
+                        code,
+                        branches.iter().map(|_| IR::End).collect(),
+                    ]
+                    .concat(),
                     out,
                 )
             }
@@ -300,7 +316,7 @@ impl<'a> IRCodeGen<'a> {
                         let cmp = self.var();
                         [
                             if let Some(var) = variable {
-                                vec![IR::Assign(Var(*var), value)]
+                                vec![IR::Define(Var(*var)), IR::Assign(Var(*var), value)]
                             } else {
                                 Vec::new()
                             },
@@ -329,6 +345,8 @@ impl<'a> IRCodeGen<'a> {
                     [
                         cops,
                         vec![
+                            // Without the definition `out` would be a Lua global shared by all activations.
+                            IR::Define(out),
                             IR::Int(tag_index, 1),
                             IR::Index(tag, c, tag_index),
                             IR::Int(value_index, 2),
@@ -489,7 +507,8 @@ impl<'a> IRCodeGen<'a> {
                     pre_code,
                     code,
                     vec![match op {
-                        BinOp::Nop => IR::Assign(res, var),
+                        // A copy makes `res` a local, an assignment would make it a Lua global.
+                        BinOp::Nop => IR::Copy(res, var),
                         BinOp::Add => IR::Add(res, current, var),
                         BinOp::Sub => IR::Sub(res, current, var),
                         BinOp::Mul => IR::Mul(res, current, var),
